@@ -360,6 +360,7 @@ class Flattener:
     def flatten(self) -> ast.FunctionDef:
         fn = copy.deepcopy(self.fi.node)
         fn.body = self._block(fn.body, [self.fi.qualname], 0)
+        fn = _StripAsarray().visit(fn)
         fn.body = structure_guards(fn.body, in_loop=False, function_level=self.function_guards)
         fn.body = split_tuple_assignments(fn.body)
         fn.body = propagate_aliases(fn.body)
@@ -379,6 +380,7 @@ class Flattener:
         fn.body = propagate_aliases(fn.body)
         fn.body = collapse_temps(fn.body, fn)
         fn.body = slot_tables_to_mappings(fn.body, fn)
+        fn.body = privatize_inplace(fn.body, fn)
         fn = _CanonExpr().visit(fn)
         ast.fix_missing_locations(fn)
         return fn
@@ -1399,6 +1401,151 @@ def _tupleize_namedtuples(stmts: list[ast.stmt], prog: Program, fi: FuncInfo) ->
     return out
 
 
+_NP_VIEW_FUNCS = {"asarray", "asanyarray", "ravel", "reshape", "transpose", "squeeze", "atleast_1d", "atleast_2d", "atleast_3d", "broadcast_to", "diagonal", "swapaxes", "moveaxis", "expand_dims", "frombuffer", "ascontiguousarray", "asfortranarray"}
+_FRESH_METHODS = {"copy", "astype", "get_positions", "get_momenta", "get_masses", "get_cell", "get_velocities", "get_forces", "get_scaled_positions", "standard_normal", "uniform", "random", "normal", "integers", "tolist", "sum", "mean", "std", "dot", "flatten"}
+_NONRETAINING_METHODS = {"set_positions", "set_momenta", "set_cell", "set_array", "set_velocities", "set_scaled_positions", "set_masses"}
+_NONRETAINING_FUNCS = {"len", "float", "int", "range", "min", "max", "sum", "abs", "isinstance", "print", "bool", "str", "repr", "type", "id", "sorted", "any", "all"}
+
+
+def _fresh_value(e: ast.expr) -> bool:
+    """does evaluating `e` give an object nobody else holds (a new array / number)?"""
+    if isinstance(e, (ast.BinOp, ast.UnaryOp, ast.Compare, ast.Constant, ast.JoinedStr, ast.List, ast.ListComp, ast.Tuple, ast.Dict, ast.DictComp, ast.Set)):
+        return True
+    if isinstance(e, ast.IfExp):
+        return _fresh_value(e.body) and _fresh_value(e.orelse)
+    if isinstance(e, ast.Call):
+        if any(k.arg == "out" for k in e.keywords):
+            return False
+        fn = norm(e.func)
+        head = fn.split(".")[0]
+        if head in ("np", "numpy", "math"):
+            return fn.split(".")[-1] not in _NP_VIEW_FUNCS
+        if fn in ("expm", "scipy.linalg.expm", "exp", "sqrt", "log", "float", "int", "len", "abs", "list", "tuple", "dict", "deepcopy", "copy.deepcopy"):
+            return True
+        if isinstance(e.func, ast.Attribute) and e.func.attr in _FRESH_METHODS:
+            return True
+    return False
+
+
+def privatize_inplace(stmts: list[ast.stmt], fn: ast.FunctionDef) -> list[ast.stmt]:
+    """In-place arithmetic on an array nobody else can see is the same as rebinding its name:
+
+        buf = np.zeros(n); buf += x          →  buf = np.zeros(n); buf = buf + x
+        np.multiply(a, b, out=buf)           →  buf = np.multiply(a, b)
+        np.sqrt(buf, out=buf)                →  buf = np.sqrt(buf)
+        buf.fill(v)                          →  buf = np.full_like(buf, v)
+
+    A local qualifies when every binding of it is a freshly allocated value (an allocation, arithmetic, a copy, an ASE
+    getter that returns a copy, a generator draw) and the object never gets a second name: it is not assigned to another
+    name or attribute, not put into a container, no view of it is bound, it is not returned before… (returning is fine),
+    and it is only passed to callees known not to keep it (numpy / math functions, ASE's copying setters, builtins)."""
+    mod = ast.Module(body=stmts, type_ignores=[])
+    params = {a.arg for a in fn.args.posonlyargs + fn.args.args + fn.args.kwonlyargs}
+    binds: dict[str, list] = {}
+    other_stores: set[str] = set()
+    for n in ast.walk(mod):
+        if isinstance(n, (ast.Assign, ast.AnnAssign)) and n.value is not None:
+            for t in (n.targets if isinstance(n, ast.Assign) else [n.target]):
+                if isinstance(t, ast.Name):
+                    binds.setdefault(t.id, []).append(n.value)
+                elif isinstance(t, (ast.Tuple, ast.List)):
+                    other_stores |= {x.id for x in ast.walk(t) if isinstance(x, ast.Name)}
+        elif isinstance(n, (ast.For, ast.comprehension)):
+            other_stores |= {x.id for x in ast.walk(n.target) if isinstance(x, ast.Name)}
+        elif isinstance(n, ast.With):
+            for it in n.items:
+                if it.optional_vars is not None:
+                    other_stores |= {x.id for x in ast.walk(it.optional_vars) if isinstance(x, ast.Name)}
+        elif isinstance(n, ast.NamedExpr):
+            other_stores.add(n.target.id)
+        elif isinstance(n, ast.ExceptHandler) and n.name:
+            other_stores.add(n.name)
+    cands = {x for x, vs in binds.items() if x not in params and x not in other_stores and all(_fresh_value(v) for v in vs)}
+    if not cands:
+        return stmts
+    parents: dict[int, ast.AST] = {}
+    for p in ast.walk(mod):
+        for ch in ast.iter_child_nodes(p):
+            parents[id(ch)] = p
+
+    def escapes(name_node: ast.Name) -> bool:
+        p = parents.get(id(name_node))
+        # the name itself as a value that gets a second holder
+        if isinstance(p, (ast.Assign, ast.AnnAssign)) and p.value is name_node:
+            return True
+        if isinstance(p, (ast.List, ast.Tuple, ast.Set, ast.Dict, ast.Starred, ast.Yield, ast.YieldFrom, ast.keyword)) and not (isinstance(p, ast.keyword) and p.arg == "out"):
+            if isinstance(p, ast.keyword):
+                gp = parents.get(id(p))
+                return not _nonretaining(gp)
+            if isinstance(p, ast.Tuple) and isinstance(parents.get(id(p)), ast.Subscript):
+                return False  # an index tuple
+            return True
+        if isinstance(p, ast.Call) and name_node in p.args:
+            return not _nonretaining(p)
+        if isinstance(p, ast.Attribute) and p.value is name_node:
+            gp = parents.get(id(p))
+            if p.attr in ("T", "flat", "real", "imag"):
+                return True  # a view gets a name / is used: keep it simple
+            if isinstance(gp, ast.Call) and gp.func is p:
+                return p.attr in ("view", "reshape", "ravel", "squeeze", "transpose", "swapaxes", "diagonal")
+            return False
+        if isinstance(p, ast.Subscript) and p.value is name_node:
+            gp = parents.get(id(p))
+            # `y = x[...]` binds a view; reading x[...] inside arithmetic or storing into x[...] does not
+            return isinstance(gp, (ast.Assign, ast.AnnAssign)) and gp.value is p
+        return False
+
+    def _nonretaining(call) -> bool:
+        if not isinstance(call, ast.Call):
+            return False
+        fn_ = norm(call.func)
+        if fn_.split(".")[0] in ("np", "numpy", "math") or fn_ in _NONRETAINING_FUNCS or fn_ in ("expm", "exp", "sqrt", "log"):
+            return True
+        return isinstance(call.func, ast.Attribute) and call.func.attr in _NONRETAINING_METHODS
+
+    for n in ast.walk(mod):
+        if isinstance(n, ast.Name) and isinstance(n.ctx, ast.Load) and n.id in cands and escapes(n):
+            cands.discard(n.id)
+    if not cands:
+        return stmts
+    ops = {ast.Add, ast.Sub, ast.Mult, ast.Div, ast.Pow, ast.FloorDiv, ast.Mod, ast.MatMult}
+
+    class T(ast.NodeTransformer):
+        def visit_AugAssign(self, node):
+            self.generic_visit(node)
+            if isinstance(node.target, ast.Name) and node.target.id in cands and type(node.op) in ops:
+                new = ast.Assign(targets=[ast.Name(id=node.target.id, ctx=ast.Store())],
+                                 value=ast.BinOp(left=ast.Name(id=node.target.id, ctx=ast.Load()), op=node.op, right=node.value), lineno=node.lineno, col_offset=0)
+                return ast.fix_missing_locations(ast.copy_location(new, node))
+            return node
+
+        def visit_Expr(self, node):
+            self.generic_visit(node)
+            c = node.value
+            if isinstance(c, ast.Call):
+                outs = [k for k in c.keywords if k.arg == "out"]
+                if len(outs) == 1 and isinstance(outs[0].value, ast.Name) and outs[0].value.id in cands and norm(c.func).split(".")[0] in ("np", "numpy"):
+                    call2 = ast.Call(func=c.func, args=c.args, keywords=[k for k in c.keywords if k.arg != "out"])
+                    new = ast.Assign(targets=[ast.Name(id=outs[0].value.id, ctx=ast.Store())], value=call2, lineno=node.lineno, col_offset=0)
+                    return ast.fix_missing_locations(ast.copy_location(new, node))
+                if isinstance(c.func, ast.Attribute) and c.func.attr == "fill" and isinstance(c.func.value, ast.Name) and c.func.value.id in cands and len(c.args) == 1:
+                    call2 = ast.Call(func=ast.Attribute(value=ast.Name(id="np", ctx=ast.Load()), attr="full_like", ctx=ast.Load()), args=[ast.Name(id=c.func.value.id, ctx=ast.Load()), c.args[0]], keywords=[])
+                    new = ast.Assign(targets=[ast.Name(id=c.func.value.id, ctx=ast.Store())], value=call2, lineno=node.lineno, col_offset=0)
+                    return ast.fix_missing_locations(ast.copy_location(new, node))
+            return node
+
+        def visit_Assign(self, node):
+            self.generic_visit(node)
+            # `y = np.f(a, out=x)` with y is x (same name): the out array holds the result
+            if len(node.targets) == 1 and isinstance(node.targets[0], ast.Name) and isinstance(node.value, ast.Call):
+                outs = [k for k in node.value.keywords if k.arg == "out"]
+                if len(outs) == 1 and isinstance(outs[0].value, ast.Name) and outs[0].value.id == node.targets[0].id and node.targets[0].id in cands:
+                    node.value = ast.Call(func=node.value.func, args=node.value.args, keywords=[k for k in node.value.keywords if k.arg != "out"])
+            return node
+
+    return T().visit(mod).body
+
+
 def collapse_temps(stmts: list[ast.stmt], scope: ast.AST) -> list[ast.stmt]:
     """`_iK_ret = <value>` immediately followed by `x = _iK_ret` (the temp's only use) is `x = <value>`."""
     uses: dict[str, int] = {}
@@ -1434,6 +1581,17 @@ def collapse_temps(stmts: list[ast.stmt], scope: ast.AST) -> list[ast.stmt]:
         return out
 
     return go(stmts)
+
+
+class _StripAsarray(ast.NodeTransformer):
+    """`np.asarray(x)` / `np.asanyarray(x)` without a dtype is `x` as far as values go (and an alias of `x` as far as
+    storage goes — which the plain name expresses as well)."""
+
+    def visit_Call(self, node):
+        self.generic_visit(node)
+        if norm(node.func) in ("np.asarray", "np.asanyarray", "numpy.asarray", "numpy.asanyarray") and len(node.args) == 1 and not node.keywords and not isinstance(node.args[0], ast.Starred):
+            return node.args[0]
+        return node
 
 
 class _CanonExpr(ast.NodeTransformer):
